@@ -6,7 +6,54 @@ From Verif Require Import Value PyEq BsonOrder Path Filter FilterSpec FilterGuar
 Import ListNotations.
 Open Scope Z_scope.
 
-Definition c05_reasons (ops : list op) (os : list obs) : Z := 0.
+(* C05 reasons (found by the proof of Properties/C05.v; each class has a checked counterexample
+   in Refuted/C05.v):
+   1 = F-ID-SUBMS: an _id (a store key, or the explicit _id of an insert_one) containing a
+       datetime that patch_datetime_awareness changes (sub-millisecond precision, or aware): the
+       store is keyed by the UNPATCHED _id while the stored document carries the truncated
+       one, so two ids equal after truncation coexist
+   2 = an _id that is not a well-formed value (a sub-document with a repeated field name:
+       not a Python dict; model artefact, == is not reflexive on it)
+   4 = F-ID-RETYPE: a stored document whose _id is == (Python) to the id it is stored under
+       but not identical to it: update/replace compare the old and new _id with ==, so
+       1 -> 1.0 -> True and a sub-document _id with reordered keys pass as "unchanged"
+       (replace_one({_id: 1.0}, ...) on {_id: 1} also rewrites the _id from the filter)
+   8 = F-ID-BOOL-NUM: a lookup {_id: v} for which a stored id is == (Python) to v but not
+       BSON-equal (True/1/1.0): the matcher returns that document
+   16 = the history creates a TTL index: any operation may then expire documents on the way,
+       which the insert/update clauses of C05 (exact counts, untouched store on a rejected
+       insert, positional preservation) do not account for; see C09
+   32 = insert_one with an explicit _id outside the model's store keys (aware datetime, or an
+       array inside a sub-document _id): the model answers EUnmodelled *)
+Definition c05_reasons (ops : list op) (os : list obs) : Z :=
+  let key_reasons (k : value) : Z :=
+    Z.lor (if value_eqb (patch k) k then 0 else 1) (if wf_value k then 0 else 2) in
+  let entry_reasons (kd : value * value) : Z :=
+    Z.lor (key_reasons (fst kd))
+          (match doc_id (snd kd) with
+           | Some i => if py_eq (patch (fst kd)) i && negb (value_eqb i (patch (fst kd)))
+                       then 4 else 0
+           | None => 0
+           end) in
+  let step_reasons (oo : op * obs) : Z :=
+    let '(o, (_, s, _)) := oo in
+    Z.lor (fold_right Z.lor 0 (map entry_reasons s))
+          (match o with
+           | OInsertOne (VDoc fs) =>
+               match assoc "_id" fs with
+               | Some i => Z.lor (key_reasons i)
+                                 (if negb (id_modelled i) && negb (is_arr i) then 32 else 0)
+               | None => 0
+               end
+           | OFind (VDoc [("_id", v)]) None [] 0 0 =>
+               if scalar_id v
+                  && existsb (fun kd => py_eq (patch (fst kd)) (patch v)
+                                        && negb (bson_eq (patch (fst kd)) (patch v))) s
+               then 8 else 0
+           | OCreateIndex _ _ _ (Some t) _ _ => if is_null t then 0 else 16
+           | _ => 0
+           end) in
+  fold_right Z.lor 0 (map step_reasons (combine ops os)).
 (* C06 reasons: 1 = F-MULTIKEY (an indexed field of a unique index holds or traverses an
    array), 2 = F-IDX-DEADEND (an indexed dotted path ends in a scalar parent: the matcher-based
    duplicate check produces no candidate there, C01 F-NULL-DEADEND), 4 = undecided (dead end
@@ -34,13 +81,197 @@ Definition c06_reasons (ops : list op) (os : list obs) : Z :=
                     | (_, s, info) => fold_right Z.lor 0 (map (fun kd => c06_doc_reasons info (snd kd)) s)
                     end) os).
 (* C08 reasons: 1 = F-FAM-AFTER-PROJ (find_one_and_* with a projection: the returned image
-   is projected after the write was applied, and a projection error is raised then) *)
+   is projected after the write was applied, and a projection error is raised then).
+   The next bits were added by the proof of C08_history (Refuted/C08.v has a checked
+   counterexample for each); they are evaluated per step on the index information and
+   store observed BEFORE the step:
+   2 = F-TTL-FAILED-WRITE: a single-document write fails while a TTL index
+       (expireAfterSeconds) exists, and either a stored document is expired at the current
+       clock (expiry runs lazily at the start of the write and inside the unique checks, so
+       the expired documents are removed although the write fails), or the write is of the
+       update kind, fails with DuplicateKeyError and a unique index exists (the new image may
+       itself be expired: the unique check then purges it and the rollback re-appends the old
+       document at the END of the store).
+   4 = F-UPDATE-NO-ROLLBACK: a single-document update / replace / find_one_and_update|replace
+       fails with an error other than DuplicateKeyError while a unique index exists.
+       Collection._update stores the new image, then runs the unique checks, and rolls back
+       only on DuplicateKeyError: any other exception of the check (an operator document
+       stored as an indexed value, a partialFilterExpression the matcher rejects, ...)
+       leaves the new image in the store.
+   8 = F-FAM-AFTER-FIND: a find_one_and_update|replace with return_document=AFTER fails.
+       The document is re-read after the write and the error of that read is raised
+       (for instance an upserted _id that is an operator document).
+   16 = not a Python value: some stored _id is not == to itself; in the model only a value
+       with a duplicate key inside a sub-document is, and no Python dict can hold one. *)
+Fixpoint c08_trace_any (p : ctx -> op -> obs -> bool) (x : ctx) (ops : list op) (os : list obs)
+  : bool :=
+  match ops, os with
+  | o :: ops', (r, s, i) :: os' =>
+      p x o (r, s, i) ||
+      c08_trace_any p (mkCtx s i (match o with OSetClock t => t | _ => x_now x end)) ops' os'
+  | _, _ => false
+  end.
+
+Definition c08_info_any (p : value -> bool) (info : value) : bool :=
+  match info with VDoc fs => existsb (fun ni => p (snd ni)) fs | _ => false end.
+Definition c08_has_ttl (info : value) : bool :=
+  c08_info_any (fun i => match get_field "expireAfterSeconds" i with
+                         | Some _ => true | None => false end) info.
+Definition c08_has_unique (info : value) : bool := c08_info_any (idx_flag "unique") info.
+
+Definition c08_update_kind (o : op) : bool :=
+  match o with
+  | OReplace _ _ _ | OUpdate _ _ false _
+  | OFindAndModify _ _ _ (FamUpdate _ _ _) | OFindAndModify _ _ _ (FamReplace _ _ _) => true
+  | _ => false
+  end.
+
+(* is document d expired at the clock [now] under the index described by the entry i of
+   index_information (single-field TTL index with a numeric expireAfterSeconds) *)
+Definition c08_doc_expired (now : Z) (i : value) (d : value) : bool :=
+  match get_field "expireAfterSeconds" i, idx_keys i with
+  | Some s, [field] =>
+      match ttl_seconds s with
+      | Ok (Some n) => doc_expired now (field, n) d
+      | _ => false
+      end
+  | _, _ => false
+  end.
+Definition c08_any_expired (x : ctx) : bool :=
+  c08_info_any (fun i => existsb (fun kd => c08_doc_expired (x_now x) i (snd kd)) (x_store x))
+               (x_idx x).
+
+Definition c08_ttl_step (x : ctx) (o : op) (ob : obs) : bool :=
+  let '(r, _, _) := ob in
+  match r with
+  | Err e =>
+      single_doc_write o && c08_has_ttl (x_idx x)
+      && (c08_any_expired x
+          || (c08_update_kind o && err_eqb e EDup && c08_has_unique (x_idx x)))
+  | Ok _ => false
+  end.
+Definition c08_norollback_step (x : ctx) (o : op) (ob : obs) : bool :=
+  let '(r, _, _) := ob in
+  match r with
+  | Err e => c08_update_kind o && negb (err_eqb e EDup) && c08_has_unique (x_idx x)
+  | Ok _ => false
+  end.
+Definition c08_after_step (x : ctx) (o : op) (ob : obs) : bool :=
+  let '(r, _, _) := ob in
+  match o, r with
+  | OFindAndModify _ _ _ (FamUpdate _ _ true), Err _
+  | OFindAndModify _ _ _ (FamReplace _ _ true), Err _ => true
+  | _, _ => false
+  end.
+Definition c08_bad_key (os : list obs) : bool :=
+  existsb (fun ob => let '(_, s, _) := ob in
+                     existsb (fun kd => negb (py_eq (fst kd) (fst kd))) s) os.
+
 Definition c08_reasons (ops : list op) (os : list obs) : Z :=
-  if existsb (fun o => match o with
-                       | OFindAndModify _ (Some _) _ _ => true
-                       | _ => false end) ops then 1 else 0.
+  (if existsb (fun o => match o with
+                        | OFindAndModify _ (Some _) _ _ => true
+                        | _ => false end) ops then 1 else 0)
+  + (if c08_trace_any c08_ttl_step ctx0 ops os then 2 else 0)
+  + (if c08_trace_any c08_norollback_step ctx0 ops os then 4 else 0)
+  + (if c08_trace_any c08_after_step ctx0 ops os then 8 else 0)
+  + (if c08_bad_key os then 16 else 0).
 Definition c09_reasons (ops : list op) (os : list obs) : Z := 0.
-Definition c10_reasons (ops : list op) (os : list obs) : Z := 0.
-Definition c13_reasons (ops : list op) (os : list obs) : Z := 0.
-Definition c14_reasons (ops : list op) (os : list obs) : Z := 0.
-Definition c15_reasons (ops : list op) (os : list obs) : Z := 0.
+
+(* ---- shared by the C10 and C14 guards: does the operation create a TTL index; all the
+   (key, document) entries of all the observed stores *)
+Definition c14_ttl_arg (ttl : option value) : bool :=
+  match ttl with Some VNull => false | Some _ => true | None => false end.
+Definition c14_ttl_op (o : op) : bool :=
+  match o with OCreateIndex _ _ _ ttl _ _ => c14_ttl_arg ttl | _ => false end.
+Definition obs_entries (os : list obs) : list (value * value) :=
+  flat_map (fun ob : obs => snd (fst ob)) os.
+(* C10 reasons:
+   1 = a TTL index is created in the history: documents expired at the start of an
+       operation are counted by the size / positional comparison but not by the operation
+       (see Refuted/C10.v);
+   2 = a stored key or document that is not == to itself (a repeated field name in some
+       sub-document: not a Python dict; model-only artefact): `modified` is decided with ==,
+       so rewriting such a document with identical content counts as a modification *)
+Definition c10_entry_refl (kd : value * value) : bool :=
+  py_eq (fst kd) (fst kd) && py_eq (snd kd) (snd kd).
+Definition c10_reasons (ops : list op) (os : list obs) : Z :=
+  (if existsb c14_ttl_op ops then 1 else 0)
+  + (if existsb (fun kd => negb (c10_entry_refl kd)) (obs_entries os) then 2 else 0).
+(* C13 reasons, evaluated at every upsert step (update/replace with upsert=true) from the
+   observation just before it and its own outcome:
+   1 = a TTL index exists: the operation first removes the expired documents, so "something
+       matches the store as it was" and "no insertion" come apart (TTL semantics, not a defect);
+   2 = a store key that is not == to itself (only a sub-document _id with duplicate keys, which
+       is not a Python dict: a model artefact: store_set then appends instead of replacing);
+   4 = the upsert stored a document under _id None (via {$set: {_id: None}} on a filter whose
+       _id condition is an operator document): upserted_id None reads as "no upsert" and
+       matched_count is then 1;
+   8 = the upserted _id is a datetime with sub-millisecond precision or a timezone
+       ($currentDate on _id): the result carries the original value, the stored document the
+       truncated one *)
+Definition c13_reasons (ops : list op) (os : list obs) : Z :=
+  (fix go (ops : list op) (os : list obs) (before : list (value * value)) (info : value) : Z :=
+     match ops, os with
+     | o :: ops', (r, after, info') :: os' =>
+         Z.lor
+           (if match o with OUpdate _ _ _ true | OReplace _ _ true => true | _ => false end then
+              (if match info with
+                  | VDoc fs => existsb (fun ni => match get_field "expireAfterSeconds" (snd ni) with
+                                                  | Some _ => true | None => false end) fs
+                  | _ => false end then 1 else 0)
+              + (if forallb (fun kd => py_eq (fst kd) (fst kd)) before then 0 else 2)
+              + (if existsb (fun kd => is_null (fst kd)) after
+                    && negb (existsb (fun kd => is_null (fst kd)) before) then 4 else 0)
+              + (match r with
+                 | Ok v => match get_field "upserted_id" v with
+                           | Some u => if value_eqb (patch u) u then 0 else 8
+                           | None => 0 end
+                 | Err _ => 0 end)
+            else 0)
+           (go ops' os' after info')
+     | _, _ => 0
+     end) ops os [] (VDoc []).
+(* ---- C14 guard.  Helper predicates on one store entry (key, document) and on operations.
+   C14 reasons:
+   1 = a TTL index is created in the history (expireAfterSeconds not None): documents expire
+       at the start of an operation, which the store comparison sees as changes/removals;
+   2 = F-ID-ALIAS, only when the history has a delete_one or a find_one_and_*: some stored
+       document's _id is not (structurally) the key it is stored under.  Happens for a
+       datetime _id with sub-millisecond precision or a tzinfo (the key is the raw value, the
+       document is patched) and for an update that rewrites _id with a ==-equal value
+       (1 -> 1.0 -> True).  delete_one / find_one_and_* address the document found by its
+       _id, and so may hit ANOTHER document (see Refuted/C14.v);
+   4 = a store key that is not == to itself: an _id sub-document with a repeated field name
+       (not a Python dict; model-only artefact);
+   8 = only when the history has a find_one_and_*: a store key that is an _id sub-document
+       with a '$' field (the {_id: id} query of find_one_and_* is then an operator query and
+       does not find the target), an array, or a value changed by patch (sub-millisecond or
+       aware datetime inside the _id) *)
+Definition c14_uses_id (o : op) : bool :=
+  match o with ODelete _ false | OFindAndModify _ _ _ _ => true | _ => false end.
+Definition c14_is_fam (o : op) : bool :=
+  match o with OFindAndModify _ _ _ _ => true | _ => false end.
+Definition c14_id_is_key (kd : value * value) : bool :=
+  match doc_id (snd kd) with Some i => value_eqb i (fst kd) | None => false end.
+Definition c14_key_refl (kd : value * value) : bool := py_eq (fst kd) (fst kd).
+Definition c14_key_plain (kd : value * value) : bool :=
+  value_eqb (patch (fst kd)) (fst kd) &&
+  match fst kd with VDoc fs => negb (any_dollar fs) | VArr _ => false | _ => true end.
+
+Definition c14_reasons (ops : list op) (os : list obs) : Z :=
+  (if existsb c14_ttl_op ops then 1 else 0)
+  + (if existsb c14_uses_id ops && existsb (fun kd => negb (c14_id_is_key kd)) (obs_entries os)
+     then 2 else 0)
+  + (if existsb (fun kd => negb (c14_key_refl kd)) (obs_entries os) then 4 else 0)
+  + (if existsb c14_is_fam ops && existsb (fun kd => negb (c14_key_plain kd)) (obs_entries os)
+     then 8 else 0).
+(* C15 reasons: 1 = a bulk_write with a request that fails the registration-time validation
+   (an update document that is not a non-empty operator document): the bulk raises before
+   executing anything, whereas the requests issued one at a time execute up to the bad one *)
+Definition c15_reasons (ops : list op) (os : list obs) : Z :=
+  if existsb (fun o => match o with
+                       | OBulk rs _ => existsb (fun r => match bulk_valid r with
+                                                         | Ok _ => false
+                                                         | Err _ => true end) rs
+                       | _ => false end) ops then 1 else 0.
+
